@@ -267,14 +267,14 @@ func runC03(s *kernel.Sim) {
 			t.host = f.host
 			for _, sg := range f.segs {
 				if sg == "{p}" {
-					sg = []string{"x", "y", "z", "w", "X", "Y"}[tp.Choose(6)]
+					sg = []string{"x", "y", "z", "w", "X", "Y", "50%", "%zz"}[tp.Weighted([]int{3, 3, 3, 3, 3, 3, 1, 1})]
 				}
 				t.segs = append(t.segs, sg)
 			}
 			switch tp.Choose(5) {
 			case 1: // extra trailing segment(s)
 				for k := tp.Range(1, 2); k > 0; k-- {
-					t.segs = append(t.segs, []string{"x", "y", "z", "w", "X", "Y"}[tp.Choose(6)])
+					t.segs = append(t.segs, []string{"x", "y", "z", "w", "X", "Y", "50%", "%zz"}[tp.Weighted([]int{3, 3, 3, 3, 3, 3, 1, 1})])
 				}
 			case 2: // missing trailing segment
 				if len(t.segs) > 0 {
@@ -282,13 +282,13 @@ func runC03(s *kernel.Sim) {
 				}
 			case 3: // one segment replaced
 				if len(t.segs) > 0 {
-					t.segs[tp.Choose(len(t.segs))] = []string{"x", "y", "z", "w", "X", "Y"}[tp.Choose(6)]
+					t.segs[tp.Choose(len(t.segs))] = []string{"x", "y", "z", "w", "X", "Y", "50%", "%zz"}[tp.Weighted([]int{3, 3, 3, 3, 3, 3, 1, 1})]
 				}
 			}
 		} else {
 			t.host = hosts[tp.Choose(2)]
 			for d := tp.Range(0, 4); d > 0; d-- {
-				t.segs = append(t.segs, []string{"x", "y", "z", "w", "X", "Y"}[tp.Choose(6)])
+				t.segs = append(t.segs, []string{"x", "y", "z", "w", "X", "Y", "50%", "%zz"}[tp.Weighted([]int{3, 3, 3, 3, 3, 3, 1, 1})])
 			}
 		}
 		// the host is part of the URL pattern, label by label: one label more, at either
